@@ -143,7 +143,10 @@ KRecvMulti(r) ==  \* RecvMulti: multishot on io_uring (pending bytes coalesce in
      IF r.pers = BadPers THEN [r |-> Complete(r, "einval", 0), dw |-> W1(r)]
      ELSE LET r1 == [r EXCEPT !.q = IF r.fed > 0 THEN Append(r.q, r.fed) ELSE r.q, !.fed = 0]
               dwi == IF r.wreg /\ r.fed > 0 THEN 1 ELSE 0
-          IN IF r.eof THEN [r |-> Complete(r1, "eof", 0), dw |-> dwi + W1(r)]
+          IN \* as observed (Linux 6.18): a request that has just delivered bytes goes back to its poll before it
+             \* can see the end of the stream, so a cancellation that is already queued reaches it first
+             IF r.creq /\ r.fed > 0 THEN [r |-> Complete(r1, "canc", 0), dw |-> dwi + W1(r)]
+             ELSE IF r.eof THEN [r |-> Complete(r1, "eof", 0), dw |-> dwi + W1(r)]
              ELSE IF r.creq THEN [r |-> Complete(r1, "canc", 0), dw |-> dwi + W1(r)]
              ELSE [r |-> r1, dw |-> dwi]
   ELSE IF r.fed > 0 THEN [r |-> [Complete(r, "ok", r.fed) EXCEPT !.fed = 0], dw |-> W1(r)]
@@ -544,6 +547,10 @@ ShapesJoin == {Two(<<>>, <<"C1">>, "sb", <<>>, "sx"),
 ShapesJoinAll == {Two(o, c1, l1, c2, l2) : o \in Chains0 \cup {<<"C1">>, <<"F1">>, <<"P1">>, <<"P2">>},
                                            c1 \in Chains0 \cup Chains1, c2 \in Chains0 \cup Chains1,
                                            l1 \in {"sb", "sx"}, l2 \in {"sx", "pr", "am"}}
+ShapesJoinMC == {Two(o, c1, l1, c2, l2) : o \in {<<>>, <<"C1">>, <<"F1">>, <<"P2">>},
+                                          c1 \in {<<>>, <<"C1">>, <<"F1">>, <<"P1">>},
+                                          c2 \in {<<>>, <<"C2">>, <<"F1">>, <<"P2">>},
+                                          l1 \in {"sb", "sx"}, l2 \in {"sx", "pr", "am"}}
 ShapesQuick == ShapesVis2 \cup ShapesSM \cup ShapesJoin
 ShapesThorough == ShapesSMAll \cup ShapesJoinAll \cup ShapesVis3
 \* small sets for the control configurations and the liveness runs
